@@ -8,59 +8,83 @@
    uncontrolled ("internal") atomic actions: [agrees] keeps the set of quiescent
    model states compatible with everything observed so far and demands that it never
    becomes empty (the observed log is a trace of the LTS). *)
-From Coq Require Import List ZArith Bool.
+From Coq Require Import List ZArith Bool Orders Sorting.Mergesort FMapPositive.
 From GZ Require Export Lib.CheckLib C11.Model.
 Import ListNotations.
 Open Scope Z_scope.
 
+(* long lists of consecutive task ids are written as runs (first, length) in the case terms *)
+Fixpoint zseq (t : Z) (n : nat) : list Z :=
+  match n with O => [] | S n' => t :: zseq (t + 1) n' end.
+Definition runs (l : list (Z * nat)) : list Z := flat_map (fun p => zseq (fst p) (snd p)) l.
+
 Inductive act :=
-| AAdd (c : nat) (t : task) (w : Z) | AFlush (c : nat) | AWait (c : nat)
-| ARel (m : Z)            (* release the parked callback whose smallest task is m; -1: none parked *)
+| AAdd (c : nat) (t : task) (w : Z)
+| AAddN (c : nat) (first : Z) (n : nat)   (* n Adds of weight 1 in a row by client c: first, first+1, ... *)
+| AFlush (c : nat) | AWait (c : nat)
+| ASync (c : nat) (snap : option batch)   (* Sync(fn); snap: the container as fn saw it (if fn looked) *)
+| ARel (m : Z) (endb : batch)
+     (* release the parked callback whose smallest task is m (-1: none parked); endb: the content
+        of its batch as the callback read it again just before it returned *)
 | ATick | AClock (d : Z)
 | AQuitGo                 (* let the flusher parked before shallQuit go on *)
-| AStopGo.                (* let the quitting flusher parked inside ticker.Stop() go on *)
+| AStopGo                 (* let the quitting flusher parked inside ticker.Stop() go on *)
+| AShutdown               (* proc.Shutdown(): the executor's shutdown listener calls Flush on a goroutine of its own *)
+| ANop.                   (* the controller acted on ANOTHER executor instance: nothing may change here *)
 
 Record obs := mkObs
-  { oidle : list bool; oparked : list batch; ocont : batch; oinfl : Z;
+  { oidle : list bool; oparked : list batch; ocont : batch; osize : Z; oinfl : Z;
     oguard : bool; ocmd : bool; otick : bool; obenter : bool;
     obflush : bool;   (* a flusher is blocked in the enterExecution of a Flush (tick or deferred) *)
     oqpark : bool;    (* a flusher is parked before shallQuit *)
     ospark : bool     (* a flusher that decided to quit is parked inside ticker.Stop() *) }.
 
-Record case := mkCase
-  { cmaxw : Z; cinterval : Z; cbad : list task; cdrained : bool; cgateq : bool; cgates : bool; cn : nat;
+(* the log of ONE executor instance; a case is the list of the instances that ran at once *)
+Record icase := mkCase
+  { cmaxw : Z; cinterval : Z; cbad : list task; cdrained : bool;
+    cerr : bool;       (* the executor could not finish the history (no quiescence, shutdown never returned) *)
+    cgateq : bool; cgates : bool; cn : nat;
     csteps : list (act * obs) }.
+Definition case := list icase.
 
-Definition cfg_of (c : case) : config := mkCfg (cmaxw c) (cinterval c) (cbad c).
+Definition cfg_of (c : icase) : config := mkCfg (cmaxw c) (cinterval c) (cbad c).
 
 (* ---------- serialisation (state equality for de-duplication) ---------- *)
 Definition zb (b : bool) : Z := if b then 1 else 0.
 Definition ser_batch (h : batch) : list Z := Z.of_nat (length h) :: h.
+(* a short digest of a batch (for hashing only) *)
+Definition dig_batch (h : batch) : list Z :=
+  [Z.of_nat (length h); match h with [] => 0 | t :: _ => t end].
+Section Ser.
+Variable sb : batch -> list Z.
 Definition ser_f (f : fpc) : list Z :=
   match f with
-  | FEnter => [0] | FRemove => [1] | FExec h => 2 :: ser_batch h
+  | FEnter => [0] | FRemove => [1] | FExec h => 2 :: sb h
   | FDone ok => [3; zb ok] | FRet ok => [4; zb ok]
   end.
 Definition ser_c (p : cpc) : list Z :=
   match p with
-  | CIdle => [10] | CAddLock t w => [11; t; w] | CAddSend h => 12 :: ser_batch h
+  | CIdle => [10] | CAddLock t w => [11; t; w] | CAddSend h => 12 :: sb h
   | CAddConfirm => [13] | CFl f w => 14 :: zb w :: ser_f f
-  | CWSpin => [15] | CWGuard => [16] | CWWait => [17]
+  | CWSpin => [15] | CWGuard => [16] | CWWait => [17] | CSyncRun => [18]
   end.
 Definition ser_b (p : bpc) : list Z :=
   match p with
-  | BStart => [20] | BSelect c l => [21; zb c; l] | BGot h l => 22 :: l :: ser_batch h
-  | BDec h => 23 :: ser_batch h | BConfirm h => 24 :: ser_batch h | BExec h => 25 :: ser_batch h
+  | BStart => [20] | BSelect c l => [21; zb c; l] | BGot h l => 22 :: l :: sb h
+  | BDec h => 23 :: sb h | BConfirm h => 24 :: sb h | BExec h => 25 :: sb h
   | BDone => [26] | BTick f l => 27 :: l :: ser_f f | BQuit l => [28; l]
   | BExit f => 29 :: ser_f f | BDead => [30] | BStop => [31]
   end.
-Definition ser (s : state) : list Z :=
-  ser_batch (cont s) ++ [csize s] ++
-  match cmd s with Some h => 1 :: ser_batch h | None => [0] end ++
+Definition ser_gen (s : state) : list Z :=
+  sb (cont s) ++ [csize s] ++
+  match cmd s with Some h => 1 :: sb h | None => [0] end ++
   [inflight s; zb (guarded s); wg s; zb (barrier s); zb (tick s); now s;
    Z.of_nat (length (cl s)); Z.of_nat (length (fl s))] ++
   flat_map ser_c (cl s) ++ flat_map ser_b (fl s) ++
   [Z.of_nat (length (executed s)); Z.of_nat (length (lost s)); Z.of_nat (length (accepted s))].
+End Ser.
+Definition ser : state -> list Z := ser_gen ser_batch.
+Definition digest : state -> list Z := ser_gen dig_batch.
 
 Definition mem_ser (x : list Z) (l : list (list Z)) : bool := existsb (zs_eqb x) l.
 
@@ -108,8 +132,20 @@ Definition internal_succs (cfg : config) (gq : gates) (s : state) : list state :
     | None => []
     end) (seq 0 (length (fl s))).
 
-(* all quiescent states reachable by internal actions; None = out of fuel *)
-Fixpoint explore (cfg : config) (gq : gates) (fuel : nat) (todo : list state) (seen : list (list Z))
+(* the set of serialised states already expanded: buckets by a hash of the serialisation
+   (exact: equality is decided on the serialisations inside a bucket) *)
+Definition hash_ser (k : list Z) : positive :=
+  Z.to_pos (1 + fold_left (fun h x => (h * 31 + x mod 1000003 + 7) mod 1000003) k 7).
+Definition seen_t := PositiveMap.t (list (list Z)).
+Definition seen_mem (k : list Z) (h : positive) (m : seen_t) : bool :=
+  match PositiveMap.find h m with Some b => mem_ser k b | None => false end.
+Definition seen_add (k : list Z) (h : positive) (m : seen_t) : seen_t :=
+  PositiveMap.add h (k :: match PositiveMap.find h m with Some b => b | None => [] end) m.
+
+(* all quiescent states reachable by internal actions; None = out of fuel.  Small explorations
+   (nearly all) keep the expanded states in a plain list; only when that runs out of fuel is the
+   exploration redone with the hashed set *)
+Fixpoint explore_small (cfg : config) (gq : gates) (fuel : nat) (todo : list state) (seen : list (list Z))
          (stable : list state) : option (list state) :=
   match fuel with
   | O => match todo with [] => Some stable | _ => None end
@@ -118,16 +154,41 @@ Fixpoint explore (cfg : config) (gq : gates) (fuel : nat) (todo : list state) (s
     | [] => Some stable
     | s :: rest =>
       let k := ser s in
-      if mem_ser k seen then explore cfg gq f rest seen stable
+      if mem_ser k seen then explore_small cfg gq f rest seen stable
       else match internal_succs cfg gq s with
-           | [] => explore cfg gq f rest (k :: seen) (s :: stable)
-           | succ => explore cfg gq f (succ ++ rest) (k :: seen) stable
+           | [] => explore_small cfg gq f rest (k :: seen) (s :: stable)
+           | succ => explore_small cfg gq f (succ ++ rest) (k :: seen) stable
            end
     end
   end.
 
-(* release the parked callback whose batch has minimum m *)
-Definition release (cfg : config) (s : state) (m : Z) : state :=
+Fixpoint explore_big (cfg : config) (gq : gates) (fuel : nat) (todo : list state) (seen : seen_t)
+         (stable : list state) : option (list state) :=
+  match fuel with
+  | O => match todo with [] => Some stable | _ => None end
+  | S f =>
+    match todo with
+    | [] => Some stable
+    | s :: rest =>
+      let k := ser s in
+      let h := hash_ser (digest s) in
+      if seen_mem k h seen then explore_big cfg gq f rest seen stable
+      else match internal_succs cfg gq s with
+           | [] => explore_big cfg gq f rest (seen_add k h seen) (s :: stable)
+           | succ => explore_big cfg gq f (succ ++ rest) (seen_add k h seen) stable
+           end
+    end
+  end.
+
+Definition explore (cfg : config) (gq : gates) (fuel : nat) (todo : list state) : option (list state) :=
+  match explore_small cfg gq 400 todo [] [] with
+  | Some st => Some st
+  | None => explore_big cfg gq fuel todo (PositiveMap.empty _) []
+  end.
+
+(* release the parked callback whose batch has minimum m; its batch must still be what the
+   implementation's callback read on return *)
+Definition release (cfg : config) (s : state) (m : Z) (endb : batch) : option state :=
   let cs := filter (fun c => match nth_error (cl s) c with
                              | Some p => match gated_c p with Some h => bmin h =? m | None => false end
                              | None => false end) (seq 0 (length (cl s))) in
@@ -135,31 +196,63 @@ Definition release (cfg : config) (s : state) (m : Z) : state :=
                              | Some p => match gated_b p with Some h => bmin h =? m | None => false end
                              | None => false end) (seq 0 (length (fl s))) in
   match cs, bs with
-  | c :: _, _ => exec cfg s (EvC c)
-  | [], b :: _ => exec cfg s (EvB b false)
-  | [], [] => s
+  | c :: _, _ =>
+    match nth_error (cl s) c with
+    | Some p => match gated_c p with
+                | Some h => if zs_eqb h endb then Some (exec cfg s (EvC c)) else None
+                | None => None end
+    | None => None
+    end
+  | [], b :: _ =>
+    match nth_error (fl s) b with
+    | Some p => match gated_b p with
+                | Some h => if zs_eqb h endb then Some (exec cfg s (EvB b false)) else None
+                | None => None end
+    | None => None
+    end
+  | [], [] => match endb with [] => Some s | _ => None end
   end.
 
-Definition apply_act (cfg : config) (s : state) (a : act) : state :=
+Fixpoint add_n (cfg : config) (s : state) (c : nat) (t : Z) (n : nat) : state :=
+  match n with
+  | O => s
+  | S n' => add_n cfg (exec cfg (exec cfg s (EvCall c (CAdd t 1))) (EvC c)) c (t + 1) n'
+  end.
+
+(* n: number of real clients; client n of the model is the goroutine of the shutdown listener.
+   None: what the implementation reported is impossible in this model state *)
+Definition apply_act (cfg : config) (n : nat) (s : state) (a : act) : option state :=
   match a with
-  | AAdd c t w => exec cfg s (EvCall c (CAdd t w))
-  | AFlush c => exec cfg s (EvCall c CFlush)
-  | AWait c => exec cfg s (EvCall c CWait)
-  | ARel m => release cfg s m
-  | ATick => exec cfg s EvTick
-  | AClock d => exec cfg s (EvClock d)
+  | AAdd c t w => Some (exec cfg s (EvCall c (CAdd t w)))
+  | AAddN c t k =>
+    match nth_error (cl s) c with
+    | Some CIdle => Some (add_n cfg s c t k)
+    | _ => Some s          (* the client is inside a call: the controller did not start anything *)
+    end
+  | AFlush c => Some (exec cfg s (EvCall c CFlush))
+  | AWait c => Some (exec cfg s (EvCall c CWait))
+  | ASync c snap =>
+    match snap with
+    | Some h => if zs_eqb h (cont s) then Some (exec cfg s (EvCall c CSync)) else None
+    | None => Some (exec cfg s (EvCall c CSync))
+    end
+  | ARel m e => release cfg s m e
+  | ATick => Some (exec cfg s EvTick)
+  | AClock d => Some (exec cfg s (EvClock d))
   | AQuitGo =>
     match filter (fun b => match nth_error (fl s) b with Some p => is_quit p | None => false end)
                  (seq 0 (length (fl s))) with
-    | b :: _ => exec cfg s (EvB b false)
-    | [] => s
+    | b :: _ => Some (exec cfg s (EvB b false))
+    | [] => Some s
     end
   | AStopGo =>
     match filter (fun b => match nth_error (fl s) b with Some p => is_stop p | None => false end)
                  (seq 0 (length (fl s))) with
-    | b :: _ => exec cfg s (EvB b false)
-    | [] => s
+    | b :: _ => Some (exec cfg s (EvB b false))
+    | [] => Some s
     end
+  | AShutdown => Some (exec cfg s (EvCall n CFlush))
+  | ANop => Some s
   end.
 
 (* ---------- projection ---------- *)
@@ -182,8 +275,8 @@ Definition is_got (p : bpc) : bool := match p with BGot _ _ => true | _ => false
 Definition is_bflush (p : bpc) : bool :=
   match p with BTick FEnter _ | BExit FEnter => true | _ => false end.
 
-Definition project (gq : gates) (s : state) : obs :=
-  mkObs (map is_idle (cl s)) (parked_of s) (cont s) (inflight s) (guarded s)
+Definition project (gq : gates) (n : nat) (s : state) : obs :=
+  mkObs (firstn n (map is_idle (cl s))) (parked_of s) (cont s) (csize s) (inflight s) (guarded s)
         (match cmd s with Some _ => true | None => false end)
         (tick s && existsb ticker_live (fl s)) (existsb is_got (fl s))
         (existsb is_bflush (fl s)) (fst gq && existsb is_quit (fl s))
@@ -191,12 +284,12 @@ Definition project (gq : gates) (s : state) : obs :=
 
 Definition obs_eqb (a b : obs) : bool :=
   list_eqb Bool.eqb (oidle a) (oidle b) && list_eqb zs_eqb (oparked a) (oparked b) &&
-  zs_eqb (ocont a) (ocont b) && (oinfl a =? oinfl b) && Bool.eqb (oguard a) (oguard b) &&
+  zs_eqb (ocont a) (ocont b) && (osize a =? osize b) && (oinfl a =? oinfl b) && Bool.eqb (oguard a) (oguard b) &&
   Bool.eqb (ocmd a) (ocmd b) && Bool.eqb (otick a) (otick b) && Bool.eqb (obenter a) (obenter b) &&
   Bool.eqb (obflush a) (obflush b) && Bool.eqb (oqpark a) (oqpark b) &&
   Bool.eqb (ospark a) (ospark b).
 
-Definition FUEL : nat := 4000.
+Definition FUEL : nat := Nat.mul 400 500.
 
 Fixpoint dedup (l : list state) (seen : list (list Z)) : list state :=
   match l with
@@ -205,49 +298,93 @@ Fixpoint dedup (l : list state) (seen : list (list Z)) : list state :=
   end.
 
 (* one controller step on a set of candidate states *)
-Definition macro (cfg : config) (gq : gates) (S : list state) (a : act) (o : obs) : option (list state) :=
-  match explore cfg gq FUEL (map (fun s => apply_act cfg s a) S) [] [] with
-  | None => None
-  | Some st => Some (dedup (filter (fun s => obs_eqb (project gq s) o) st) [])
+Definition after_act (cfg : config) (n : nat) (S : list state) (a : act) : list state :=
+  flat_map (fun s => opt_list (apply_act cfg n s a)) S.
+
+Definition macro (cfg : config) (gq : gates) (n : nat) (S : list state) (a : act) (o : obs) : option (list state) :=
+  match a with
+  | ANop => (* the candidates are quiescent already and nothing was done to this instance *)
+    Some (filter (fun s => obs_eqb (project gq n s) o) S)
+  | _ =>
+    match explore cfg gq FUEL (after_act cfg n S a) with
+    | None => None
+    | Some st => Some (dedup (filter (fun s => obs_eqb (project gq n s) o) st) [])
+    end
   end.
 
-Fixpoint follow (cfg : config) (gq : gates) (S : list state) (steps : list (act * obs)) : bool :=
+Fixpoint follow (cfg : config) (gq : gates) (n : nat) (S : list state) (steps : list (act * obs)) : bool :=
   match steps with
   | [] => true
   | (a, o) :: rest =>
-    match macro cfg gq S a o with
-    | Some (s :: S') => follow cfg gq (s :: S') rest
+    match macro cfg gq n S a o with
+    | Some (s :: S') => follow cfg gq n (s :: S') rest
     | _ => false
     end
   end.
 
-(* the observed log is a trace of the model *)
-Definition agrees (c : case) : bool := follow (cfg_of c) (cgateq c, cgates c) [init (cn c)] (csteps c).
+(* the observed log of one instance is a trace of the model (n real clients + the shutdown listener) *)
+Definition agrees_i (c : icase) : bool :=
+  follow (cfg_of c) (cgateq c, cgates c) (cn c) [init (S (cn c))] (csteps c).
+Definition agrees (cs : case) : bool := forallb agrees_i cs.
 
 (* what the model allows after the longest prefix it can follow (diagnostics) *)
-Fixpoint follow_diag (cfg : config) (gq : gates) (S : list state) (steps : list (act * obs)) (i : Z)
+Fixpoint follow_diag (cfg : config) (gq : gates) (n : nat) (S : list state) (steps : list (act * obs)) (i : Z)
   : Z * list obs :=
   match steps with
   | [] => (-1, [])
   | (a, o) :: rest =>
-    match macro cfg gq S a o with
-    | Some (s :: S') => follow_diag cfg gq (s :: S') rest (i + 1)
-    | _ => (i, match explore cfg gq FUEL (map (fun s => apply_act cfg s a) S) [] [] with
-               | Some st => map (project gq) st | None => [] end)
+    match macro cfg gq n S a o with
+    | Some (s :: S') => follow_diag cfg gq n (s :: S') rest (i + 1)
+    | _ => (i, match explore cfg gq FUEL (after_act cfg n S a) with
+               | Some st => map (project gq n) st | None => [] end)
     end
   end.
-Definition model_obs (c : case) : Z * list obs := follow_diag (cfg_of c) (cgateq c, cgates c) [init (cn c)] (csteps c) 0.
+Definition model_obs_i (c : icase) : Z * list obs :=
+  follow_diag (cfg_of c) (cgateq c, cgates c) (cn c) [init (S (cn c))] (csteps c) 0.
+(* per instance: index of the first step the model cannot follow (-1: none) and what it allows there *)
+Definition model_obs (cs : case) : list (Z * list obs) :=
+  map (fun c => let r := model_obs_i c in if fst r =? -1 then (-1, []) else r) cs.
 
 (* ---------- the property on the observed log (independent of the model) ---------- *)
 Definition nth_idle (o : obs) (c : nat) : bool := nth c (oidle o) false.
 
-Definition obs0 (n : nat) : obs := mkObs (repeat true n) [] [] 0 false false false false false false false.
+Definition obs0 (n : nat) : obs := mkObs (repeat true n) [] [] 0 0 false false false false false false false.
 
-Definition zmem (x : Z) (l : list Z) : bool := existsb (Z.eqb x) l.
-Fixpoint nodup_z (l : list Z) : bool :=
-  match l with [] => true | x :: l' => negb (zmem x l') && nodup_z l' end.
-Definition subset_z (a b : list Z) : bool := forallb (fun x => zmem x b) a.
-Definition perm_z (a b : list Z) : bool := zs_eqb (sort_z a) (sort_z b).
+(* sets of tasks as sorted lists (merge sort: the BulkInserter cases carry thousands of rows) *)
+Module ZOrder <: TotalLeBool.
+  Definition t := Z.
+  Definition leb := Z.leb.
+  Theorem leb_total : forall a1 a2, leb a1 a2 = true \/ leb a2 a1 = true.
+  Proof.
+    intros a1 a2. unfold leb. destruct (Z.leb_spec a1 a2); [now left|right].
+    apply Z.leb_le, Z.lt_le_incl; assumption.
+  Qed.
+End ZOrder.
+Module ZSort := Sort ZOrder.
+Definition msort (l : list Z) : list Z := ZSort.sort l.
+
+Fixpoint sorted_nodup (l : list Z) : bool :=
+  match l with
+  | x :: (y :: _) as t => negb (x =? y) && sorted_nodup t
+  | _ => true
+  end.
+(* a, b sorted: every element of a occurs in b *)
+Fixpoint sub_sorted (fuel : nat) (a b : list Z) : bool :=
+  match fuel with
+  | O => match a with [] => true | _ => false end
+  | S f =>
+    match a, b with
+    | [], _ => true
+    | _ :: _, [] => false
+    | x :: a', y :: b' =>
+      if x =? y then sub_sorted f a' b
+      else if y <? x then sub_sorted f a b' else false
+    end
+  end.
+Definition nodup_z (l : list Z) : bool := sorted_nodup (msort l).
+Definition subset_z (a b : list Z) : bool :=
+  sub_sorted (S (length a + length b)) (msort a) (msort b).
+Definition perm_z (a b : list Z) : bool := zs_eqb (msort a) (msort b).
 
 (* log analysis state *)
 Record an := mkAn
@@ -266,16 +403,22 @@ Definition an_step (a : an) (st : act * obs) : an :=
   let '(ac, o) := st in
   let prev := a_prev a in
   (* 1. the controller action *)
-  let started := match ac with
-                 | AAdd c t _ => if nth_idle prev c then a_started a ++ [t] else a_started a
-                 | _ => a_started a end in
-  let pending := match ac with
-                 | AAdd c t _ => if nth_idle prev c then a_pending a ++ [(c, t)] else a_pending a
-                 | _ => a_pending a end in
+  let new_tasks := match ac with
+                   | AAdd c t _ => if nth_idle prev c then [(c, t)] else []
+                   | AAddN c t n => if nth_idle prev c then map (fun x => (c, x)) (zseq t n) else []
+                   | _ => [] end in
+  let started := a_started a ++ map snd new_tasks in
+  let pending := a_pending a ++ new_tasks in
   let waits := match ac with
                | AWait c => if nth_idle prev c then a_waits a ++ [(c, a_returned a)] else a_waits a
                | _ => a_waits a end in
-  let released := match ac with ARel m => find_parked prev m | _ => [] end in
+  let released := match ac with ARel m _ => find_parked prev m | _ => [] end in
+  (* the batch a callback holds is the same when the callback returns as when it started, and
+     Sync's fn sees the container as it is *)
+  let content_ok := match ac with
+                    | ARel _ e => zs_eqb e released
+                    | ASync c (Some h) => if nth_idle prev c then zs_eqb h (ocont prev) else true
+                    | _ => true end in
   let completed := a_completed a ++ released in
   (* 2. calls that returned during this step *)
   let ret_now := filter (fun ct => nth_idle o (fst ct)) pending in
@@ -292,9 +435,9 @@ Definition an_step (a : an) (st : act * obs) : an :=
                  (match pending' with [] => perm_z visible started | _ => true end) &&
                  (* pending tasks have an owner: a live flusher loop, or a flusher about to flush *)
                  (match ocont o with [] => true | _ => oguard o || obflush o || ospark o end) in
-  mkAn o started returned pending' completed waits' (a_ok a && wait_ok && cons_ok).
+  mkAn o started returned pending' completed waits' (a_ok a && wait_ok && cons_ok && content_ok).
 
-Definition analyse (c : case) : an :=
+Definition analyse (c : icase) : an :=
   fold_left an_step (csteps c) (mkAn (obs0 (cn c)) [] [] [] [] [] true).
 
 (* at the end of a log that ends with a drain (releases, a Wait, releases) every call
@@ -304,6 +447,23 @@ Definition final_ok (a : an) : bool :=
   match oparked (a_prev a) with [] => true | _ => false end &&
   perm_z (a_completed a) (a_started a).
 
-Definition prop_ok (c : case) : bool :=
+Definition prop_ok_i (c : icase) : bool :=
   let a := analyse c in
-  a_ok a && (if cdrained c then final_ok a else true).
+  a_ok a && negb (cerr c) && (if cdrained c then final_ok a else true).
+
+(* tasks of different instances are different (harness), so "nothing unknown is visible" per
+   instance also says that no instance shows a task of another one *)
+Definition prop_ok (cs : case) : bool := forallb prop_ok_i cs.
+
+(* diagnostics: number of candidate model states after each step of an instance's log *)
+Fixpoint follow_sizes (cfg : config) (gq : gates) (n : nat) (S : list state) (steps : list (act * obs)) : list nat :=
+  match steps with
+  | [] => []
+  | (a, o) :: rest =>
+    match macro cfg gq n S a o with
+    | Some S' => length S' :: follow_sizes cfg gq n S' rest
+    | None => [0%nat]
+    end
+  end.
+Definition model_sizes (cs : case) : list (list nat) :=
+  map (fun c => follow_sizes (cfg_of c) (cgateq c, cgates c) (cn c) [init (S (cn c))] (csteps c)) cs.
